@@ -13,7 +13,7 @@ import traceback
 import z3
 
 from . import core, symrun, ringnf
-from .core import Obligation, DISCHARGED, FAILED, UNDECIDED, BOUNDED, ERROR
+from .core import Obligation, DISCHARGED, FAILED, UNDECIDED, BOUNDED, ERROR, SKIPPED
 
 
 class Contract:
@@ -179,6 +179,8 @@ def run_job(args):
 
     per_name = {}
     feasible_with_obls = 0
+    failed_any = False
+    confirmed = 0
     for path in paths:
         if path.outcome[0] == "exc":
             info["exc_paths"] += 1
@@ -189,11 +191,13 @@ def run_job(args):
                 info["hints"].append(h)
         if not path.obls:
             continue
-        hyps = path.facts + path.assume + path.pc
         hbase = path.facts + path.pc
-        # vacuity guard: the hypotheses of this path must not be contradictory
+        # vacuity guard: requires + hints + path condition (NOT the lemmas, which are themselves
+        # obligations) must not be contradictory
+        lem = path.lemma_idx
+        hyps0 = hbase + [f for i, f in enumerate(path.assume) if i not in lem]
         info["canaries"] += 1
-        st, _, _, _ = symrun.solve(hyps, timeout_s=5)
+        st, _, _, _ = symrun.solve(hyps0, timeout_s=5)
         if st == "unsat":
             info["infeasible_paths"] += 1
             continue
@@ -202,6 +206,13 @@ def run_job(args):
             info["covers"] += 1
         feasible_with_obls += 1
         for oi, (name, post, nass, using) in enumerate(path.obls):
+            if confirmed >= 3:
+                ent = per_name.setdefault(name, {"status": SKIPPED, "t": 0.0, "backends": set(),
+                                                 "detail": "not attempted: earlier obligations of this "
+                                                 "contract instance already failed with native witnesses",
+                                                 "witness": None, "n": 0})
+                ent["n"] += 1
+                continue
             if using is None:
                 hy = hbase + path.assume[:nass]
             elif oi in path.gen:
@@ -218,14 +229,20 @@ def run_job(args):
                 hy = symrun.relevant_facts(fs, us + [post], None) + us
             else:
                 hy = symrun.relevant_facts(path.facts, using + [post], path) + using
-            st, model, backend, dt = discharge(path, hy, post, c.timeout)
+            # once something in this job failed, later obligations get a short budget (they often
+            # depend on the failed step; their verdict can add noise but cannot hide the failure)
+            st, model, backend, dt = discharge(path, hy, post,
+                                               c.timeout if not failed_any else min(c.timeout, 3))
             ent = per_name.setdefault(name, {"status": DISCHARGED, "t": 0.0, "backends": set(),
                                              "detail": "", "witness": None, "n": 0})
+            if ent["status"] == SKIPPED:
+                ent["status"] = DISCHARGED
             ent["t"] += dt
             ent["n"] += 1
             ent["backends"].add(backend)
             if st == "unsat":
                 continue
+            failed_any = True
             witness = None
             why = ""
             if st == "sat":
@@ -239,6 +256,7 @@ def run_job(args):
             if witness is None:
                 witness, why = native_search(name, c.search if tier == "quick" else 10 * c.search)
             if witness is not None:
+                confirmed += 1
                 ent["status"] = FAILED
                 ent["witness"] = {"inputs": witness, "params": {k: _short(v) for k, v in p.items()},
                                   "how": why}
@@ -289,6 +307,69 @@ def run_job(args):
     return out, info
 
 
+JOB_WALL_LIMIT = {"quick": 900, "thorough": 3600}
+
+
+def _job_main(conn, job):
+    try:
+        conn.send(run_job(job))
+    except BaseException:
+        c = REGISTRY[job[0]]
+        conn.send(([{"id": "%s/%s/job-crash%s" % (c.prop, c.cid, _pstr(c.params[job[1]])),
+                     "status": ERROR, "backend": "-", "time_s": 0.0,
+                     "detail": traceback.format_exc()[-1500:], "witness": None,
+                     "functions": c.functions, "bound": c.bounded, "contract": job[0], "param": job[1]}],
+                   {}))
+    finally:
+        conn.close()
+
+
+def _run_pool(jobs, workers, wall_limit):
+    """one forked process per job, at most `workers` at a time, each with a wall-clock limit: a
+    solver call that ignores its timeout cannot hang the check (the job becomes a checker error)"""
+    ctx = mp.get_context("fork")
+    pending = list(enumerate(jobs))
+    running = {}
+    results = [None] * len(jobs)
+    while pending or running:
+        while pending and len(running) < workers:
+            k, job = pending.pop(0)
+            parent, child = ctx.Pipe(duplex=False)
+            pr = ctx.Process(target=_job_main, args=(child, job))
+            pr.start()
+            child.close()
+            running[k] = (pr, parent, time.time(), job)
+        done = []
+        for k, (pr, parent, t0, job) in running.items():
+            if parent.poll(0.02):
+                try:
+                    results[k] = parent.recv()
+                except EOFError:
+                    results[k] = None
+                pr.join(5)
+                done.append(k)
+            elif not pr.is_alive():
+                pr.join()
+                done.append(k)
+            elif time.time() - t0 > wall_limit:
+                pr.terminate()
+                pr.join(5)
+                done.append(k)
+        for k in done:
+            pr, parent, t0, job = running.pop(k)
+            if results[k] is None:
+                c = REGISTRY[job[0]]
+                results[k] = ([{"id": "%s/%s/job-timeout%s" % (c.prop, c.cid, _pstr(c.params[job[1]])),
+                                "status": ERROR, "backend": "-", "time_s": time.time() - t0,
+                                "detail": "job exceeded its wall-clock limit or died (exit code %s)" % pr.exitcode,
+                                "witness": None, "functions": c.functions, "bound": c.bounded,
+                                "contract": job[0], "param": job[1]}], {})
+            parent.close()
+        if not done:
+            time.sleep(0.02)
+    return results
+
+
 def run_all(rep, prop, tier, seed, only=None, workers=12):
     jobs = []
     for idx, c in enumerate(REGISTRY):
@@ -301,12 +382,10 @@ def run_all(rep, prop, tier, seed, only=None, workers=12):
     if not jobs:
         rep.error("no contracts registered for %s" % prop)
         return
-    ctx = mp.get_context("fork")
     if len(jobs) == 1 or os.environ.get("GSVC_SERIAL"):
         results = [run_job(j) for j in jobs]
     else:
-        with ctx.Pool(min(workers, len(jobs))) as pool:
-            results = pool.map(run_job, jobs, chunksize=1)
+        results = _run_pool(jobs, workers, JOB_WALL_LIMIT[tier])
     npaths = 0
     for (obls, info) in results:
         npaths += info.get("paths", 0)
@@ -339,7 +418,7 @@ def replay_file(prop, path):
     for c in REGISTRY:
         if c.prop == prop and c.cid == rp.get("contract"):
             p = c.params[rp["param"]]
-            name = oid.split("/", 2)[2]
+            name = oid[len(prop) + 1 + len(c.cid) + 1:]
             name = name[:len(name) - len(_pstr(p))] if _pstr(p) else name
             try:
                 r = run_concrete(c, p, wit["inputs"])
